@@ -21,6 +21,7 @@ RUN_SLICE = {
     "C06": {1, 2, 4, 5},
     "C08": {1, 2},
     "C09": {1, 2, 3, 4, 5, 6, 99},
+    "C11": set(),
     "C14": {2, 3, 5},
     "C15": {2, 4, 5, 6, 99},
 }
@@ -113,6 +114,15 @@ def run_stream(ctx, spec, st, replay, scale, hbin, coqc_shards):
                 idx = int(kv["idx"])
                 mfails.append({"stream": "run", "master": master, "idx": idx, "profile": profile, "property": pid,
                                "kind": "monitor-false", "monitor": "judge_twin", "verdict": m.group(1), "observation": obs.get(idx, {})})
+    for vf, (rc, text) in outs.items():
+        for m in re.finditer(r'"GTWIN ([^"]*) END"', text):
+            kv = dict(x.split("=", 1) for x in m.group(1).split())
+            dist["guess_twins"] += 1
+            if pid == "C11" and kv.get("C11") == "0":
+                idx = int(kv["idx"])
+                mfails.append({"stream": "run", "master": master, "idx": idx, "profile": profile, "property": pid,
+                               "kind": "monitor-false", "monitor": "judge_guess_twin (initial value as the guess gives a different run)",
+                               "verdict": m.group(1), "observation": obs.get(idx, {})})
     for vf, (rc, text) in outs.items():
         for m in re.finditer(r'"VALS ([^"]*) END"', text):
             kv = dict(x.split("=", 1) for x in m.group(1).split())
@@ -567,13 +577,15 @@ PROPS = {
         "propfile": "theories/Properties/C11.v",
         "coq_targets": ["theories/Properties/C11.vo"],
         "checkers": ["GuessCheck"],
-        "streams": [{"kind": "guess", "name": "mixed", "profile": "mixed", "count": {"quick": 960, "thorough": 16000}, "salt": 11}],
+        "streams": [{"kind": "guess", "name": "mixed", "profile": "mixed", "count": {"quick": 960, "thorough": 16000}, "salt": 11},
+                    {"kind": "run", "name": "guesstwin", "profile": "twin", "count": {"quick": 64, "thorough": 1000}, "salt": 111}],
         "assumptions": [
             "decided at the serde_json::Value level (json_ok: floats finite, integers in u64/i64 range); JSON text <-> tree is serde_json's",
             "objects are BTreeMaps: modelled as association lists compared as maps",
         ],
         "tested_not_proved": [
             "that value_util::build_node / Value::to_json refine Codec.from_json / Codec.to_json: compared on conforming values reached by real mutations (both map encodings), single-defect corruptions, arbitrary JSON",
+            "'the spec's own initial value as the guess gives the same run as none': twin runs of the run stream (same actions replayed, logs compared by judge_guess_twin); in the model the two runs are the same term once the guess decodes to the initial value",
             "round trip value -> JSON -> value -> same JSON: proved for the model (serialise_then_read_back, integers in i64 and keys in usize); for the implementation checked by the monitor on every conforming case (also through JSON text)",
             "'the spec's own initial value as guess gives the same run': not yet covered by a stream",
         ],
